@@ -70,6 +70,13 @@
 //	                                                            → R-C17-2 Close|releases only after the inner Close returned
 //	PC1 `defer l.releaseOnce.Do(...)`; return l.Conn.Close(); PC2 Once.Do(func(){ l.Conn.Close(); l.release() }) → silent
 //
+// Fourth pass (round-3 seeded change b): SetMaxConnection shortcut against a stale cached limit
+//
+//	D1 `if n == l.maxConn { return }` with maxConn written only by the constructor (seeded); D2 store before the
+//	   compare; D3 store on one branch only; D4 constructor does not initialise the cache; D5 plain early return
+//	                                              → R-C17-3 SetMaxConnection|forwards on every path
+//	PD1 cache stored after SetMaxCount; PD2 `if l.maxConn != n { l.maxConn = n; SetMaxCount }`   → silent
+//
 // Behaviour-preserving edits tried (exit 0 with the two findings registered as known):
 //
 //	P1 Accept: renamed locals, `got == true`, ctx error copied through a second local; early-return
